@@ -579,6 +579,7 @@ fn main() {
                 x: "B0".into(),
                 y: "B0".into(),
                 p: 0,
+                lite: true,
             }],
             None => {
                 let dir = boundary::DIRS
@@ -587,7 +588,7 @@ fn main() {
                     .find(|d| Some(*d) == b["dir"].as_str())
                     .unwrap_or_else(|| machinery_error("bad direction in boundary replay"));
                 let st = |k: &str| b[k].as_str().unwrap_or_else(|| machinery_error("bad boundary replay")).to_string();
-                vec![boundary::CaseSpec { dir, x: st("x"), y: st("y"), p: b["p"].as_u64().unwrap_or(0) as usize }]
+                vec![boundary::CaseSpec { dir, x: st("x"), y: st("y"), p: b["p"].as_u64().unwrap_or(0) as usize, lite: b["lite"].as_bool().unwrap_or(false) }]
             }
         };
         // the children of the thorough tier include those of the quick tier: a case over a
@@ -614,17 +615,27 @@ fn main() {
             &report,
         );
     }
-    // The scenario runs before the BFS (its cases are few and internally parallel: the uncached call
-    // and the slot history of a case run side by side); the BFS takes what is left of the budget.
+    // The scenario runs on its own thread AND its own small rayon pool, concurrently with the BFS
+    // below: its histories are chains of dependent, mostly single-threaded calls (critical path
+    // ~15 s, ~4 cores busy), which the BFS hides. A separate pool keeps the BFS's 1-2 s call tasks
+    // from being stolen into the middle of a boundary call (that stretched the chains 2x).
     let boundary_specs = if replay_value.is_some() || ctx.opt("boundary") == Some("0") { vec![] } else { boundary::cases(!ctx.quick()) };
-    let boundary_run: Option<boundary::BoundaryRun> = if boundary_specs.is_empty() {
-        None
-    } else {
-        let oot = || ctx.used() > 0.85;
-        let r = boundary::run(&mk_benv(), ctx.seed, &boundary_specs, !ctx.quick(), &oot)
-            .unwrap_or_else(|e| machinery_error(&format!("config-boundary scenario: {e}")));
-        eprintln!("C17 config-boundary scenario: {} cases, {} child steps, t={:.1}s", r.cases.len(), r.child_steps.len(), ctx.elapsed_s());
-        Some(r)
+    let boundary_thread = {
+        let env = mk_benv();
+        let specs = boundary_specs.clone();
+        let (start, budget, seed, thorough) = (ctx.start, ctx.budget, ctx.seed, !ctx.quick());
+        std::thread::spawn(move || -> Result<Option<boundary::BoundaryRun>, String> {
+            if specs.is_empty() {
+                return Ok(None);
+            }
+            let oot = move || start.elapsed().as_secs_f64() > 0.85 * budget.as_secs_f64();
+            let pool = vpcore::rayon::ThreadPoolBuilder::new()
+                .num_threads(if thorough { 16 } else { 8 })
+                .stack_size(64 << 20)
+                .build()
+                .map_err(|e| format!("cannot build the boundary thread pool: {e}"))?;
+            pool.install(|| boundary::run(&env, seed, &specs, thorough, &oot)).map(Some)
+        })
     };
     let mut all_bases: Vec<String> = vec![];
     if let Some(rp) = &replay_value {
@@ -954,6 +965,10 @@ fn main() {
         }
     }
     // ---- config-boundary scenario: collect ---------------------------------------------------
+    let boundary_run = boundary_thread
+        .join()
+        .unwrap_or_else(|_| machinery_error("the config-boundary thread panicked"))
+        .unwrap_or_else(|e| machinery_error(&format!("config-boundary scenario: {e}")));
     let mut boundary_ev = Value::Null;
     let mut boundary_counts = boundary::BoundaryCounts { transitions: 0, states: 0, compared: 0 };
     if let Some(run) = &boundary_run {
